@@ -5,6 +5,7 @@ import KoordVerif.Model.C11Decode
 import KoordVerif.Model.C11E2E
 import KoordVerif.Model.C11Metric
 import KoordVerif.Model.C11Containers
+import KoordVerif.Model.C11Passes
 /-
 Driver for C11.  A case is a list of declaration lines followed by one command line.
 
@@ -41,6 +42,15 @@ Driver for C11.  A case is a list of declaration lines followed by one command l
    ctrs <podId> <isCpuEvictor> <n> (<kind 0 regular|1 init|2 sidecar init> <mid or -1> <batch or -1>)*n
        the pod's containers (Model/C11Containers.lean); no output; the pod's reqMid / reqBatch (and, for the cpu
        evictor, batchReq) are REPLACED by the sums the container loops compute
+
+ harnesses `passmem` / `passcpu` (several memoryEvict() / cpuEvict() passes against the real executor, Model/C11Passes.lean):
+   xcfg <onlyAPI> <started> <ttl>   fresh executor, once per case
+   per pass: rawpod / ctrs / metric lines of the pods PRESENT in this pass, then
+   term <n> <podId>*n               the present pods that carry a deletionTimestamp (no list builder reads it)
+   script <n> <0|1>*n               outcomes of this pass's eviction API calls
+   passmem <now> <the 24 tokens of e2emem>   |   passcpu <now> <the 44 tokens of e2ecpu>
+ output: `term-listed <podId>*` (terminating pods standing in some built task's list), the `task …` lines of e2emem /
+         e2ecpu, then `skip` | `evict <f> <pod> <ok>`* `newly <0|1>` `api <number of API calls>`
 -/
 namespace KoordVerif.C11
 open KoordVerif.Proto
@@ -60,6 +70,7 @@ structure Acc where
   pods   : List Pod := []
   exec   : Option Exec := none
   raws   : List RawPod := []
+  term   : List Nat := []
 
 def parseTask (xs : List Int) : Option Task :=
   match xs with
@@ -303,6 +314,75 @@ def runE2ECpu (a : Acc) (xs : List Int) : Option (List String) :=
     some (built ++ run)
   | _ => none
 
+def parseMemCfg (xs : List Int) : Option MemCfg :=
+  match xs with
+  | [beOn, allocOn, memOn, h1, thr, h2, lower, h3, prioThr, h4, aThr, h5, aLower, h6, aPrio, cap,
+     h7, used, h8, am, h9, ab, h10, amid] =>
+    some { beOn := beOn ≠ 0, allocOn := allocOn ≠ 0, memOn := memOn ≠ 0, thr := optI h1 thr,
+           lower := optI h2 lower, prioThr := optI h3 prioThr, aThr := optI h4 aThr,
+           aLower := optI h5 aLower, aPrioThr := optI h6 aPrio, capacity := cap,
+           nodeUsed := optI h7 used, allocMem := optI h8 am, allocBatch := optI h9 ab,
+           allocMid := optI h10 amid }
+  | _ => none
+
+def parseCpuCfg (xs : List Int) : Option CpuCfg :=
+  match xs with
+  | beOn :: allocOn :: cpuOn :: h1 :: lowP :: h2 :: upP :: h3 :: thr :: h4 :: lower :: h5 :: prioThr :: h6 :: aThr ::
+      h7 :: aLower :: h8 :: aPrio :: cap :: h9 :: used :: h10 :: ac :: h11 :: ab :: h12 :: amid :: window :: byAlloc ::
+      h13 :: usageThr :: e1 :: a1 :: c1 :: n1 :: e2 :: a2 :: c2 :: n2 :: e3 :: a3 :: c3 :: n3 :: [] =>
+    let beAlloc : Float := match optI h11 ab with
+      | none => -1
+      | some v => if v < 0 then -1 else if v = 0 then 1 else Float.ofInt v
+    let bt := beSatTarget window (byAlloc ≠ 0) (optI h13 usageThr) ((optI h1 lowP).getD 0) ((optI h2 upP).getD 0) beAlloc
+      (e1, a1, c1, n1) (e2, a2, c2, n2) (e3, a3, c3, n3)
+    some { beOn := beOn ≠ 0, allocOn := allocOn ≠ 0, cpuOn := cpuOn ≠ 0, lowP := optI h1 lowP, upP := optI h2 upP,
+           beTarget := bt, thr := optI h3 thr, lower := optI h4 lower, prioThr := optI h5 prioThr,
+           aThr := optI h6 aThr, aLower := optI h7 aLower, aPrioThr := optI h8 aPrio, capacity := cap,
+           nodeUsed := optI h9 used, allocCpu := optI h10 ac, allocBatch := optI h11 ab, allocMid := optI h12 amid }
+  | _ => none
+
+def passPodsOf (a : Acc) : List PassPod :=
+  a.raws.reverse.map fun rp => { raw := rp, terminating := a.term.contains rp.id }
+
+def showPassRun {F} (idx : F → Nat) (ts : List (F × Task)) : Option XSt → List String
+  | none => ["skip"]
+  | some s =>
+    (s.st.logRev.reverse.filterMap fun ev =>
+      let f := (ts[ev.task]?.map (fun ft => idx ft.1)).getD 9
+      match ev.kind with
+      | .ok => some s!"evict {f} {ev.e.pod} 1"
+      | .fail => some s!"evict {f} {ev.e.pod} 0"
+      | .pending => none) ++ [s!"newly {b2i s.st.newly}", s!"api {s.api}"]
+
+/-- terminating pods that stand in the list of some task of the pass, in pod order. -/
+def termListed (pps : List PassPod) (tasks : List Task) : String :=
+  " ".intercalate ("term-listed" :: ((pps.filter fun pp =>
+    pp.terminating && tasks.any fun t => t.pods.any fun e => e.pod = pp.raw.id).map fun pp => toString pp.raw.id))
+
+/-- `passmem <now> <e2emem tokens>`: one memoryEvict() pass with the case's executor. -/
+def runPassMem (a : Acc) (x : Exec) (now : Int) (xs : List Int) : Option (List String × Exec) :=
+  (parseMemCfg xs).map fun c =>
+    let pps := passPodsOf a
+    let built := if c.capacity ≤ 0 then [] else
+      [MemFeature.be, .alloc, .mem].map fun f => memTask allocFloat c (passRaws pps) f
+    let builtS := if c.capacity ≤ 0 then [] else
+      [MemFeature.be, .alloc, .mem].map fun f => showTask (featIdx f) (memTask allocFloat c (passRaws pps) f)
+    let ts := memPassTasks allocFloat c pps
+    let run := memoryEvictPass allocFloat c pps x now a.script
+    ([termListed pps (built.filterMap id)] ++ builtS ++ showPassRun featIdx ts run, (run.map (·.x)).getD x)
+
+/-- `passcpu <now> <e2ecpu tokens>`: one cpuEvict() pass with the case's executor. -/
+def runPassCpu (a : Acc) (x : Exec) (now : Int) (xs : List Int) : Option (List String × Exec) :=
+  (parseCpuCfg xs).map fun c =>
+    let pps := passPodsOf a
+    let built := if c.capacity ≤ 0 then [] else
+      [CpuFeature.be, .alloc, .cpu].map fun f => cpuTask floatUsage cpuAllocFloat c (passRaws pps) f
+    let builtS := if c.capacity ≤ 0 then [] else
+      [CpuFeature.be, .alloc, .cpu].map fun f => showTask (cpuFeatIdx f) (cpuTask floatUsage cpuAllocFloat c (passRaws pps) f)
+    let ts := cpuPassTasks floatUsage cpuAllocFloat c pps
+    let run := cpuEvictPass floatUsage cpuAllocFloat c pps x now a.script
+    ([termListed pps (built.filterMap id)] ++ builtS ++ showPassRun cpuFeatIdx ts run, (run.map (·.x)).getD x)
+
 def runTgt (xs : List Int) : List String :=
   match xs with
   | [cap, used, thr, hl, lo, buf] =>
@@ -374,6 +454,17 @@ def runCase (lines : List String) : List String :=
             match runE2ECpu a xs with
             | some o => go {} (out ++ o) rest
             | none => out ++ ["bad-op"]
+          | "term" =>
+            match xs with
+            | n :: ks => if ks.length = n.toNat ∧ ks.all (· ≥ 0) then go { a with term := ks.map Int.toNat } out rest else out ++ ["bad-op"]
+            | _ => out ++ ["bad-op"]
+          | "passmem" | "passcpu" =>
+            match xs, a.exec with
+            | now :: cfg, some x =>
+              match (if kind = "passmem" then runPassMem a x now cfg else runPassCpu a x now cfg) with
+              | some (o, x') => go { exec := some x' } (out ++ o) rest
+              | none => out ++ ["bad-op"]
+            | _, _ => out ++ ["bad-op"]
           | "kill" => if xs.isEmpty then go {} (out ++ runKill a) rest else out ++ ["bad-op"]
           | "xcfg" =>
             match xs with
